@@ -70,6 +70,7 @@ GOLDEN = [
     ('10 DIM a(3), b$(2) : a(1) = 5 : a(3) = 7 : b$(2) = "x" : PUNCH a(0), a(1), a(3), b$(2), c(10)\n20 PUT(2.5, 1, 2) : PUT$("s", 3) : PUNCH GET(1, 2), GET(2, 1), GET$(3)',
      [0, 5, 7, "x", 0, 2.5, 0, "s"]),
 ]
+SKIPPED_NUM = '10 PUNCH LEN(NO_NEWLINE$) + 1\n20 SAVE 1'
 PEEKPOKE = ['10 PUNCH PEEK(8)', '10 POKE 8, 1']
 
 
@@ -119,6 +120,73 @@ def run_model(ctx, cases):
         for r in ex.map(chunk, [cases[i:i + CH] for i in range(0, len(cases), CH)]):
             out.update(r)
     return out
+
+
+def run_model_hist(ctx, cases):
+    """cases: list of (key, textA, textB) → {key: [m1, m2?]} (program B runs in the engine state program A left)"""
+    out = {}
+    if not cases:
+        return out
+
+    def chunk(cs):
+        inp = "".join(f"H {i} 0 {FUEL} {(a.encode('latin1').hex() or '-')} {(b.encode('latin1').hex() or '-')}\n"
+                      for i, (_, a, b) in enumerate(cs))
+        res = {}
+        try:
+            lines = ctx.pmodel("basic", inp, timeout=900)
+        except Exception:
+            return {k: None for k, _, _ in cs}
+        for line in lines:
+            parts = line.split(" | ")
+            w = parts[0].split()
+            if len(parts) < 4:
+                continue
+            idx, part = w[1].split(".")
+            m = dict(status=w[2], kind=w[3], ub=w[4] == "ub=1", punch=[dec_item(x) for x in parts[1].split()])
+            res.setdefault(cs[int(idx)][0], []).append(m)
+        return res
+    CH = max(1, min(100, len(cases) // vlib.NCPU + 1))
+    with cf.ThreadPoolExecutor(vlib.NCPU) as ex:
+        for r in ex.map(chunk, [cases[i:i + CH] for i in range(0, len(cases), CH)]):
+            out.update(r)
+    return out
+
+
+def judge_hist(ms, real):
+    """two simulations in one engine: USER_PUNCH A (row 1), then USER_PUNCH redefined as B (row 2)"""
+    st = real["status"]
+    if not ms:
+        return None
+    if any(m["kind"] in ("resource", "modelcrash") for m in ms):
+        return None
+    if st.startswith("sig") or st in ("exc", "lost") or st.startswith("exit"):
+        return f"crash: real engine ended with {st} in a two-simulation history"
+    if any(m["status"] == "fuel" or m["kind"].startswith("unsupported") or m["kind"] == "valdepth" for m in ms):
+        return None
+    if st == "timeout":
+        return "hang: real engine exceeded the time limit in a two-simulation history, reference evaluation terminates"
+    ref_err = any(m["status"] == "err" for m in ms)
+    if ref_err:
+        return None if st != "ok" else "history: reference gives a BASIC error, real engine delivers values"
+    if st != "ok":
+        return "history: real engine reports an error, reference evaluation delivers values: " + real["err"][:200]
+    rows, cur = [], []
+    for x in real["items"]:
+        if isinstance(x, tuple):
+            rows.append(cur)
+            cur = []
+        else:
+            cur.append(x)
+    want = [m["punch"] for m in ms]
+    if len(rows) != len(want):
+        return f"history: {len(rows)} rows punched, reference {len(want)}"
+    for r, (a, b) in enumerate(zip(rows, want)):
+        if len(a) != len(b):
+            return f"history row {r + 1}: PUNCH count differs: real {len(a)} reference {len(b)}"
+        for i, (x, y) in enumerate(zip(a, b)):
+            if not close(x, y):
+                return f"history row {r + 1}: PUNCH value {i + 1} differs: real {x!r} reference {y!r} (variables / store / DATA pointer across programs)"
+    return None
 
 
 def run_real(ctx, exe, cases, tmo=None):
@@ -310,7 +378,7 @@ def make_programs(ctx, n):
         size = rng.choice(sizes)
         if rng.random() < (0.02 if ctx.tier == "quick" else 0.01):
             size = rng.choice([120, 200, 300])
-        deep = ctx.tier == "thorough" and rng.random() < 0.25
+        deep = ctx.tier == "thorough" and rng.random() < 0.12
         if deep:
             size = rng.choice([80, 150, 250, 400])
         lines, hist = G.gen_program(rng, size, max_depth=6 if deep else 3)
@@ -340,6 +408,11 @@ def run(ctx):
         if rs["p"]["status"].startswith("sig"):
             ctx.finding("basic-peek-poke", f"BASIC PEEK/POKE dereference an arbitrary address: {text!r} ends with {rs['p']['status']}",
                         {"program": text, "hosts": ["punch"]})
+    # ---- a numeric PUNCH item skipped after NO_NEWLINE$: cmdpunch frees the union as if it held a string
+    pr, ms_, rs_ = check_program(ctx, exe, SKIPPED_NUM)
+    if pr:
+        ctx.finding("basic-skipped-numeric-punch", "numeric PUNCH item skipped after NO_NEWLINE$: " + pr[0],
+                    {"program": SKIPPED_NUM, "hosts": HOSTS})
     # ---- documented values on the real engine (and on the model)
     gm = run_model(ctx, [(i, 0, t) for i, (t, _) in enumerate(GOLDEN)])
     gr = run_real(ctx, exe, [(i, "punch", t) for i, (t, _) in enumerate(GOLDEN)])
@@ -358,9 +431,21 @@ def run(ctx):
                           {"program": t, "expected": [repr(x) for x in want], "model": [repr(x) for x in gotm]}, found_input=False)
             break
     ctx.cov["golden_programs"] = len(GOLDEN)
+    # ---- fixed two-simulation histories: variables cleared, DATA pointer restored, PUT store and punch flags kept
+    HIST = [('10 PUT(5, 1) : PUT$("s", 2) : x = 3 : DIM q(4) : q(2) = 8 : PUNCH x, GET(1), q(2)\n20 DATA 7, 8\n30 READ d : PUNCH d',
+             '10 PUNCH x, GET(1), GET$(2), q(2), 9\n20 READ e : PUNCH e\n30 DATA 6'),
+            ('10 FOR i = 1 TO 3 : GOSUB 100 : NEXT i\n20 PUT(i, 7) : END\n100 PUNCH i : RETURN', '10 PUNCH GET(7), i\n20 NEXT i'),
+            ('10 a$ = NO_NEWLINE$ : b$ = EOL_NOTAB$ : PUNCH "skipped", 1', '10 PUNCH 2, 3'),
+            ('10 b$ = EOL_NOTAB$ : PUNCH 1 : c$ = NO_NEWLINE$', '10 PUNCH "skipped too", 3')]
+    hm = run_model_hist(ctx, [(i, a, b) for i, (a, b) in enumerate(HIST)])
+    hr = run_real(ctx, exe, [(i, "hist", a + "\n@@\n" + b) for i, (a, b) in enumerate(HIST)])
+    for i, (a, b) in enumerate(HIST):
+        pr = judge_hist(hm.get(i), hr[i])
+        if pr and not ctx.violations:
+            ctx.violation(pr, {"program": a, "program_b": b, "hosts": ["hist"]})
     progs = [dict(text=t, kind="corpus", hist={}, nlines=t.count("\n") + 1) for t in CORPUS] + make_programs(ctx, n)
     stats = dict(programs=len(progs), judged_pairs=0, value_cells=0, ref_ok=0, ref_err=0, ref_fuel=0, ref_unsupported=0, ref_ub=0,
-                 skipped_large=0, real_timeouts=0, ub_differences_not_judged=0, error_class_same=0, error_class_other=0, hp_programs=0)
+                 skipped_large=0, real_timeouts=0, histories=0, ub_differences_not_judged=0, error_class_same=0, error_class_other=0, hp_programs=0)
     construct = {}
     kinds = {}
     lines_hist = {}
@@ -390,6 +475,25 @@ def run(ctx):
         rs = run_real(ctx, exe, rcases)
         if slow:
             rs.update(run_real(ctx, exe, slow, tmo=2))
+        # histories: program i, then (USER_PUNCH redefined in the next simulation of the same engine) program j
+        hist = []
+        for i, p in enumerate(batch):
+            m = ms[(i, 0)]
+            if m["status"] == "ok" and len(m["punch"]) < 400 and ctx.rng.random() < 0.2:
+                j = i if ctx.rng.random() < 0.4 else ctx.rng.randrange(len(batch))
+                if len(ms[(j, 0)]["punch"]) < 400 and ms[(j, 0)]["status"] != "fuel":
+                    hist.append(((i, j), p["text"], batch[j]["text"]))
+        hm = run_model_hist(ctx, hist)
+        hr = run_real(ctx, exe, [(k, "hist", a + "\n@@\n" + b) for k, a, b in hist]) if hist else {}
+        for k, a, b in hist:
+            stats["histories"] += 1
+            pr = judge_hist(hm.get(k), hr[k])
+            if pr and any(m["ub"] for m in hm[k]) and not pr.startswith(("crash", "hang")):
+                stats["ub_differences_not_judged"] += 1
+            elif pr and not ctx.violations:
+                ctx.violation(pr, {"program": a, "program_b": b, "hosts": ["hist"],
+                                   "reference": [{"status": m["status"], "kind": m["kind"], "punch": [repr(x) for x in m["punch"][:40]]} for m in hm[k]],
+                                   "real": {"status": hr[k]["status"], "items": [repr(x) for x in hr[k]["items"][:80]], "err": hr[k]["err"][:300]}})
         ctx.log(f"batch {b0}: {len(rcases)} real-engine runs done")
         for i, p in enumerate(batch):
             m = ms[(i, 0)]
@@ -506,6 +610,22 @@ def replay(ctx, data):
             ctx.violation("proof obligation / translator of C17 still broken", {"broken": ctx.proof_broken}, found_input=False)
         return
     text = data["program"]
+    if "program_b" in data:
+        hm = run_model_hist(ctx, [("h", text, data["program_b"])])
+        hr = run_real(ctx, exe, [("h", "hist", text + "\n@@\n" + data["program_b"])])
+        pr = judge_hist(hm.get("h"), hr["h"])
+        print("reference:", [(m["status"], m["kind"], [repr(x) for x in m["punch"][:20]]) for m in (hm.get("h") or [])])
+        print("real:", hr["h"]["status"], [repr(x) for x in hr["h"]["items"][:40]], hr["h"]["err"][:200])
+        print("replay result:", pr or "agree")
+        if pr:
+            ctx.violation(pr, dict(data, problems=[pr]))
+        return
+    if text == SKIPPED_NUM:
+        pr, _, _ = check_program(ctx, exe, text)
+        print("replay result:", pr or "agree")
+        if pr:
+            ctx.finding("basic-skipped-numeric-punch", pr[0], {"program": text, "hosts": HOSTS})
+        return
     if any(text == t for t in PEEKPOKE):
         rs = run_real(ctx, exe, [("p", "punch", text)])
         print("replay result:", rs["p"]["status"])
@@ -523,6 +643,6 @@ def replay(ctx, data):
 
 MANIFEST = dict(
     technique="Lean 4 reference evaluator of PBasic (tokenizer incl. strtod decimal/hexadecimal, level-indexed 7-level parser, evaluator, token-driven statement machine, basic_compile/basic_run, numtostr and printf %f/%e in exact arithmetic) with theorems for all expressions/programs/states; translator for the token enumeration, keyword table and operator masks; differential testing against the real engine under four hosts, one forked child per case",
-    text="Theorems (Properties/C17.lean, 40): parse_print_roundtrip / parse_level_roundtrip / parse_args_roundtrip (for every well-formed derivation of the documented expression grammar - 15 binary operators on 6 levels, prefix operators/functions, subscripted variables, GET/GET$ argument lists, MID$/PAD/INSTR/TRIM/STR_F$/STR_E$ forms, redundant parentheses; one derivation constructor per expression constructor - the model's parser returns exactly the tree the derivation denotes: left fold per level, ^ to the right, unary tighter than binary), eval_compositional(+_un), run_fuel_mono + exec_total, hosts_agree, gosub_return_stack + return_without_gosub + popTo_gosub, read_data_order + scanToks_first, for_iterations / for_iterations_down / for_count_closed_form (exact rationals, uninterpreted libm), next_uses_nextContinues, if_then_else + skipToElse_prefix/_matching/_nested/_no_else + else_skips_rest, while_statement + wend_statement + wend_without_while + whileSkip_prefix + while_skips_to_matching_wend + while_skips_nested, PUT/GET keyed store: store_get_put_same / store_get_put_other / find_map_same / find_map_other / get_reads_store / put_writes_store / put_then_get. Obligations over generated data (decide): keywords_documented, functions_documented, rel_mask_is_the_six_relations, loop_masks on Gen/BasicTokens.lean regenerated from PBasic.h/PBasic.cpp each run. Correspondence: 300 (quick) / 30000 (thorough, a quarter of them 80-400 lines with nesting depth up to 6) generated programs, 30% with one malformed-program mutation, plus fixed corpus and documented-value (golden) programs that are independent of model and tables; USER_PUNCH via GetSelectedOutputValue, USER_PRINT text, RATES via calc_kinetic_reaction, CALCULATE_VALUES via -calculate_values; numbers at 1e-12 relative, strings exact, error-vs-value must agree (error class compared and reported), signal/exception/hang = violation; hosts also compared with each other.",
+    text="Theorems (Properties/C17.lean, 41): parse_print_roundtrip / parse_level_roundtrip / parse_args_roundtrip (for every well-formed derivation of the documented expression grammar - 15 binary operators on 6 levels, prefix operators/functions, subscripted variables, GET/GET$ argument lists, MID$/PAD/INSTR/TRIM/STR_F$/STR_E$ forms, redundant parentheses; one derivation constructor per expression constructor - the model's parser returns exactly the tree the derivation denotes: left fold per level, ^ to the right, unary tighter than binary), eval_compositional(+_un), run_fuel_mono + exec_total, hosts_agree, gosub_return_stack + return_without_gosub + popTo_gosub, read_data_order + scanToks_first, for_iterations / for_iterations_down / for_count_closed_form (exact rationals, uninterpreted libm), next_uses_nextContinues, if_then_else + skipToElse_prefix/_matching/_nested/_no_else + else_skips_rest, while_statement + wend_statement + wend_without_while + whileSkip_prefix + while_skips_to_matching_wend + while_skips_nested, PUT/GET keyed store: store_get_put_same / store_get_put_other / find_map_same / find_map_other / get_reads_store / put_writes_store / put_then_get / store_survives_redefinition (a program defined later in the same engine starts with fresh lines, variables, loops, DATA pointer and finds the store unchanged). Obligations over generated data (decide): keywords_documented, functions_documented, rel_mask_is_the_six_relations, loop_masks on Gen/BasicTokens.lean regenerated from PBasic.h/PBasic.cpp each run. Correspondence: 300 (quick) / 30000 (thorough, a quarter of them 80-400 lines with nesting depth up to 6) generated programs, 30% with one malformed-program mutation, plus fixed corpus and documented-value (golden) programs that are independent of model and tables; USER_PUNCH via GetSelectedOutputValue, USER_PRINT text, RATES via calc_kinetic_reaction, CALCULATE_VALUES via -calculate_values; numbers at 1e-12 relative, strings exact, error-vs-value must agree (error class compared and reported), signal/exception/hang = violation; hosts also compared with each other; on 20% of the programs a two-simulation history (USER_PUNCH A, then USER_PUNCH redefined as B in the next simulation of the same engine) is compared row by row with the model's carryOver relation.",
     note="Trusted: Lean kernel; tools/gen_basic.py (regex extraction); harness/ph_basic.cpp (fork per case, friend access to calc_kinetic_reaction); tools/gens/basic.py; comparison logic in tools/props/c17.py; platform libm shared by both sides (strtod and printf formatting are re-implemented exactly in Model/BasicNum.lean / BasicLex.lean and compared). Partial / not judged (all counted in the evidence): PUT argument lists are parsed while evaluated (statement level) and are outside the derivation type; expressions are parsed, then evaluated, so when a line holds both a syntax error and an earlier run-time error the error class can differ (outcome 'error' agrees; 2 of 1366 error programs in a 6000-program run); chemistry functions, PEEK/POKE (known finding basic-peek-poke), editor commands (LIST/RUN/NEW/LOAD/MERGE/DEL/RENUM), INPUT, GOTOXY are outside the model ('unsupported', never generated); values after a C conversion with undefined behaviour ((long)/(int) of NaN/out of range) or after formatting a NaN (printf shows its sign bit) are compared but a difference is not a violation; programs that exhaust the model's budget (20000 statements) are only checked for 'no crash'; 4M-character strings / 2M-cell arrays (memory exhaustion) are not judged.",
 )
